@@ -18,6 +18,7 @@ RULE = ("a history = (import order, id-counter bumps per prefix SYM/FUN/QTY/VEC/
         "module of the working tree catching exceptions, and emits import outcome, equation fingerprints and probe results, "
         "compared with the canonical history (alphabetical order, no bumps). Isolated histories import one module alone. "
         "evaluations = (history, module) pairs; non-trivial = history differs from canonical; distinct = distinct (history, module).")
+RULE = RULE + ' Also: a digit-boundary sweep re-executes every module body with the SYM/FUN/QTY counters placed so that its 1st..4th (thorough 1st..10th) own symbol is the last one with 3, 4, 5 ... digits and compares equations and calculate_* probes with the first import; probes try up to five deterministic argument tuples and cover parameters the decorators do not declare.'
 ASSUMPTIONS = ["PYTHONHASHSEED is fixed (hash-seed dependence is not part of the property)",
                "numeric fingerprints use fixed smooth stand-ins for undefined functions",
                "a dependence that needs one specific counter value outside the swept patterns is missed"]
